@@ -621,6 +621,29 @@ func gen(seed uint64, tier string) {
 			}
 		}
 	}
+	// histories: a window of Encode results is kept and re-verified after the whole batch (a result must
+	// not alias state that a later call overwrites); one batch = one line so that a replay reproduces it
+	nb := 60
+	if tier == "thorough" {
+		nb = 1500
+	}
+	for i := 0; i < nb; i++ {
+		k := r.Range(2, 8)
+		fmt.Fprintf(out, "batch %d", k)
+		for j := 0; j < k; j++ {
+			var g geom.Geom
+			switch {
+			case i%5 == 4 && j == 0:
+				g = wide(r, 1+r.Intn(5), 0, []int{65, 129}[r.Intn(2)]) // one long text in the window
+			case j%3 == 2:
+				g = geom.Point{X: float64(r.Range(-9, 9)), Y: coord(r, false)}
+			default:
+				g = cfg{laterEmpty: true}.geom(r, r.Intn(6))
+			}
+			fmt.Fprintf(out, " %s", vproto.GeomToks(g))
+		}
+		fmt.Fprintln(out)
+	}
 	// documents that are not objects
 	for _, s := range []string{"null", "[]", "1", `"Point"`, "true", "{}", `{"type":"Point"}`, `{"coordinates":[1,2]}`,
 		`{"type":"Point","coordinates":[1,2]}`, `{"type":"Point","coordinates":[1,2,3]}`, `{"type":"Point","coordinates":[]}`,
@@ -827,6 +850,30 @@ func impl() {
 				}
 				// encoding/json's own rendering of every finite coordinate (the model's number formatter)
 				res += " |" + renderings(g)
+			case "batch":
+				n := p.Int()
+				kept := make([][]byte, n)   // the slices exactly as Encode returned them
+				copies := make([]string, n) // immediate copies
+				errs := make([]error, n)
+				gs := make([]geom.Geom, n)
+				for i := 0; i < n; i++ {
+					gs[i] = p.Geom()
+					kept[i], errs[i] = geojson.Encode(gs[i])
+					copies[i] = string(kept[i])
+				}
+				// late check: what the kept slices hold NOW, and what Decode makes of them
+				var b strings.Builder
+				for i := 0; i < n; i++ {
+					if i > 0 {
+						b.WriteString(" ; ")
+					}
+					if errs[i] != nil {
+						b.WriteString("err " + errKind(errs[i]))
+					} else {
+						b.WriteString("ok x" + hex.EncodeToString([]byte(copies[i])) + " x" + hex.EncodeToString(kept[i]))
+					}
+				}
+				res = b.String()
 			case "rt":
 				g := p.Geom()
 				buf, err := geojson.Encode(g)
